@@ -490,6 +490,7 @@ def _plan(tier):
             P.append(("restart", dict(driver=d, table=t, n=2 if t not in ("dmol", "emol") else 3), ("rebuilt",)))
     P.append(("forcebias", dict(adaptive=False), ()))
     P.append(("forcebias", dict(adaptive=True), ()))
+    P.append(("restart", dict(driver="Canonical", table="d", n=2), (), "state-restored"))
     return P
 
 
